@@ -40,7 +40,7 @@ type GraphCase struct {
 }
 
 // Inf is "unreachable" in reference distance matrices.
-const Inf = int(1) << 40
+const Inf = int(1) << 60
 
 // Build constructs the library graph and returns the vertex objects by id.
 func (gc *GraphCase) Build() (*graph.Graph, []graph.Vertex) {
@@ -151,7 +151,10 @@ func GenGraphCase(g G, kind string, maxN, maxW int) *GraphCase {
 	gc.Hash = g.Bool()
 	// weight palette: small palettes force ties
 	var wp []int
-	switch g.Int(0, 3) {
+	switch g.Int(0, 4) {
+	case 4:
+		// huge weights: beyond 32 bits, path sums still far below Inf
+		wp = []int{0, 1, 5, 1<<31 - 1, 1 << 31, 3000000000, 1 << 32, 1<<33 + 7, 1 << 40}
 	case 0:
 		wp = []int{1}
 	case 1:
